@@ -21,11 +21,54 @@ ASSUMPTIONS = ["element-wise oracle reads the spec dictionaries directly (mon.re
                "the private vector _unable_to_reach_absorbing is compared when present"]
 
 
+def _conveyor(case, rng):
+    """a state space that is one LONG chain (a two-lane conveyor of 1000-3000 cells): the inferred state list, its prefix under
+    max_states and spot-checked array entries"""
+    from msdm.core.mdp import QuickTabularMDP
+    from msdm.core.distributions import DictDistribution
+    n = rng.choice([1100, 1500, 3000])
+    slip = rng.choice([0.0, 0.25])
+
+    def nsd(s, a):
+        lane, i = s
+        if i == n - 1:
+            return DictDistribution({s: 1.0})
+        if a == "switch":
+            return DictDistribution({(1 - lane, i + 1): 1.0})
+        return DictDistribution({(lane, i + 1): 1.0}) if slip == 0 else DictDistribution({(lane, i + 1): 1 - slip, (1 - lane, i + 1): slip})
+    mdp = QuickTabularMDP(next_state_dist=nsd, reward=lambda s, a, ns: -1.0, actions=lambda s: ("on", "switch"),
+                          initial_state_dist=DictDistribution({(0, 0): 1.0}), is_absorbing=lambda s: s[1] == n - 1, discount_rate=1.0)
+    case.family = "conveyor"
+    case.params = dict(n=n, slip=slip)
+    case.nontrivial = True
+    case.sig("conveyor", n, slip)
+    want = {(0, 0)} | {(l, i) for l in (0, 1) for i in range(1, n)}
+    got = case.call("reachable_states", lambda: set(mdp.reachable_states()))
+    case.count("inferred_lists_checked")
+    case.count("long_chains")
+    if got is not case.FAIL:
+        case.check(got == want, "state_list!=reachable-closure", lambda: f"conveyor of {n} cells: {len(got)} states listed, {len(want)} reachable")
+    k = rng.choice([1, 50, 500])
+    pre = case.call("reachable_states(max_states)", lambda: list(mdp.reachable_states(max_states=k)))
+    case.count("max_states_calls")
+    if pre is not case.FAIL:
+        case.check(len(set(pre)) == len(pre) and set(pre) <= want and len(pre) <= k + 2, "max_states:not-a-bounded-subset-of-the-closure",
+                   lambda: f"k={k}: {len(pre)} states")
+    sl = case.call("state_list", lambda: list(mdp.state_list))
+    if sl is not case.FAIL:
+        case.check(len(sl) == len(set(sl)) == len(want) and set(sl) == want, "state_list!=reachable-closure", lambda: f"{len(sl)} vs {len(want)}")
+        case.count("elements_compared", len(sl))
+    for k_ in ("from_matrices_roundtrips", "wrapper_roundtrips", "table_lookups"):
+        case.count(k_, 0)
+
+
 def run_case(case, rng):
     from msdm.core.mdp import TabularMarkovDecisionProcess, QuickTabularMDP, QuickMDP
     from msdm.algorithms import ValueIteration
     from mon.gen import build as Bd
 
+    if rng.random() < (0.012 if case.tier == "quick" else 0.002):
+        return _conveyor(case, rng)
     fam = rng.choice(["any", "any", "proper", "sspneg", "zerocycle", "avg", "ghostzero", "ghostzero",
                       "stray"])
     base = {"ghostzero": "any", "stray": "any"}.get(fam, fam)
